@@ -353,7 +353,7 @@ func c17EnumerateUDP(sh *evidence.Shard) {
 		names = append(names, fmt.Sprintf("%s(%dB)", s.Name, len(s.Data)))
 	}
 	p1.Alphabet = map[string]any{"samples": names, "port_filter": []string{"nil", "contains the port", "excludes the port"}, "rewrite_domain": []bool{true, false},
-		"req_addr": []string{"10.1.2.3:443", "[2001:db8::7]:443", "orig.example.net:443"},
+		"req_addr":       []string{"10.1.2.3:443", "[2001:db8::7]:443", "orig.example.net:443"},
 		"port_spellings": "nil filter, RewriteDomain: the three hosts x ports {0,65535,65536,65616,131152,-1,0443,+80,4294967376}"}
 	for _, s := range samples {
 		for _, cfg := range c17Configs() {
